@@ -413,6 +413,9 @@ func (w *World) startControllers() {
 		w.run.S.Kill(100 + w.ctlGen)
 	}
 	w.ctlGen++
+	// the idempotency tokens live in the client's memory: a new process cannot find the interface
+	// of a timed-out create again
+	w.cloud.timedOut = map[string]string{}
 	w.api.ResetCache()
 	w.deliveredENI = map[string]*v1beta1.PodENI{}
 	for _, name := range sortedKeys(w.prevENI) {
